@@ -368,6 +368,11 @@ class Soil:
 
         self.zSoil = round(self.profile.dz.sum(), 2)
 
+        # the top-soil layer used for water-stress comparisons covers at least
+        # the first compartment (as in __init__; the first compartment may have
+        # been thickened when the profile was deepened)
+        self.z_top = max(self.z_top, float(self.profile.dz.iloc[0]))
+
         self.nComp = len(self.profile)
 
         self.profile.Layer = self.profile.Layer.astype(int)
